@@ -150,74 +150,78 @@ def run_pair(ctx, desc):
                               {"A": ref_for(refs, ca), "B": ref_for(refs, cb)}, "sequential-differs-from-fresh-process",
                               {"pair": "%s|%s" % (na, nb)})
                 continue
+            slow = na.startswith("search_auto") or nb.startswith("search_auto")   # language autodetection: ~0.3 s per call
             if ctx.tier == "thorough":
-                ks = list(range(1, L + 1))
+                ks = set(range(1, L + 1))
             else:
                 first = {}
                 for idx, loc in enumerate(locs):
                     first.setdefault(loc, idx + 1)
                 ks = sorted(first.values())
-                slow = na.startswith("search_auto") or nb.startswith("search_auto")   # language autodetection: ~0.3 s per call
                 # when B does work before it reaches the library's lock (search_dates does), every location of A matters;
                 # otherwise B simply waits while A holds the lock and a seeded sample of A's locations is enough
                 cap, extra = (12, 4) if slow else ((300, 30) if cb["api"] in ("search", "hijri", "jalali") else (140, 30))
                 if len(ks) > cap:
                     ks = sorted(rnd.sample(ks, cap))
                 ks = set(ks) | set(rnd.randrange(1, L + 1) for _ in range(extra))
-                # the stretches of A that run outside the lock (before it is taken, after it is released) are where two
-                # calls really overlap: every k from the start until B first has to wait, and from the end likewise
-                probe_cap = 40 if slow else 400
-                outside = []
-                for rng_k in (range(1, min(L, probe_cap) + 1), range(L, max(0, L - probe_cap // 2), -1)):
-                    run_blocked = 0
-                    for k in rng_k:
-                        r0 = sched.schedule(fa, fb, k)
-                        ks.add(k)
-                        if r0["hung"]:
+            # the stretches of A that run outside the lock (before it is taken, after it is released) are where two
+            # calls really overlap: every k from the start until B first has to wait, and from the end likewise
+            probe_cap = (40 if slow else 400) if ctx.tier == "quick" else (120 if slow else 1500)
+            outside = []
+            for rng_k in (range(1, min(L, probe_cap) + 1), range(L, max(0, L - probe_cap // 2), -1)):
+                run_blocked = 0
+                for k in rng_k:
+                    r0 = sched.schedule(fa, fb, k)
+                    ks.add(k)
+                    if r0["hung"]:
+                        break
+                    if r0["fired"] and r0["blocked"]:
+                        run_blocked += 1
+                        if run_blocked >= 6:      # a short locked section may be followed by more unlocked code
                             break
-                        if r0["fired"] and r0["blocked"]:
-                            run_blocked += 1
-                            if run_blocked >= 6:      # a short locked section may be followed by more unlocked code
-                                break
+                        continue
+                    run_blocked = 0
+                    outside.append(k)
+                    ctx.count("outside_lock_probe_schedules")
+            ks = sorted(ks)
+            two = (na, nb) in TWO_PREEMPTIONS or (nb, na) in TWO_PREEMPTIONS
+            if ctx.tier == "thorough" and not slow and cb["api"] in ("search", "hijri", "jalali"):
+                two = True       # thorough: every pair whose B works before it reaches the lock
+            if two:
+                # two pre-emptions: A suspended at a point outside the lock, B suspended somewhere inside its own call,
+                # A finishes, B finishes.  (One pre-emption cannot put A outside the lock *while* B is half-way.)
+                _, LB, locs_b = sched.run_alone(fb, record=True)
+                firstb = {}
+                for idx, loc in enumerate(locs_b):
+                    firstb.setdefault(loc, idx + 1)
+                kbs = sorted(firstb.values())
+                kbs = sorted(rnd.sample(kbs, min(len(kbs), 40 if ctx.tier == "quick" else 160)))
+                outside = sorted(set(outside))
+                n_ka = 8 if ctx.tier == "quick" else 24
+                for ka in outside[::max(1, len(outside) // n_ka)][:n_ka + 1]:      # spread evenly over the outside-lock stretch
+                    for kb in kbs:
+                        r2 = sched.schedule(fa, fb, ka, kb=kb)
+                        if r2["hung"]:
+                            ctx.inconclusive.append("two-pre-emption schedule hung: pair %s|%s ka=%d kb=%d" % (na, nb, ka, kb))
+                            return
+                        if not (r2["fired"] and r2["b_fired"]):
+                            ctx.count("schedules2_not_realised")
                             continue
-                        run_blocked = 0
-                        outside.append(k)
-                        ctx.count("outside_lock_probe_schedules")
-                ks = sorted(ks)
-                if (na, nb) in TWO_PREEMPTIONS or (nb, na) in TWO_PREEMPTIONS:
-                    # two pre-emptions: A suspended at a point outside the lock, B suspended somewhere inside its own call,
-                    # A finishes, B finishes.  (One pre-emption cannot put A outside the lock *while* B is half-way.)
-                    _, LB, locs_b = sched.run_alone(fb, record=True)
-                    firstb = {}
-                    for idx, loc in enumerate(locs_b):
-                        firstb.setdefault(loc, idx + 1)
-                    kbs = sorted(firstb.values())
-                    kbs = sorted(rnd.sample(kbs, min(len(kbs), 40)))
-                    outside = sorted(set(outside))
-                    for ka in outside[::max(1, len(outside) // 8)][:9]:      # spread evenly over the outside-lock stretch
-                        for kb in kbs:
-                            r2 = sched.schedule(fa, fb, ka, kb=kb)
-                            if r2["hung"]:
-                                ctx.inconclusive.append("two-pre-emption schedule hung: pair %s|%s ka=%d kb=%d" % (na, nb, ka, kb))
-                                return
-                            if not (r2["fired"] and r2["b_fired"]):
-                                ctx.count("schedules2_not_realised")
-                                continue
-                            ctx.ran()
-                            ctx.count("schedules2_realised")
-                            if r2["a_waited_for_b"]:
-                                ctx.count("schedules2_A_waited_for_B")
-                            okA = C.same_outcome(r2["A"], ref_for(refs, ca))
-                            okB = C.same_outcome(r2["B"], ref_for(refs, cb))
-                            if not (okA and okB):
-                                ctx.violation({"pair": [na, nb], "k": ka, "kb": kb, "preempted_at": list(r2["loc"]),
-                                               "B_preempted_at": list(r2["b_loc"]), "A": ca, "B": cb},
-                                              {"A": r2["A"], "B": r2["B"]}, {"A": ref_for(refs, ca), "B": ref_for(refs, cb)},
-                                              "concurrent-divergence",
-                                              {"pair": "%s|%s" % (na, nb), "who": "A" if okB else ("B" if okA else "both"),
-                                               "file": r2["loc"][0], "exc": None, "two_preemptions": True})
-                            else:
-                                ctx.nontrivial(na, nb, ka, kb)
+                        ctx.ran()
+                        ctx.count("schedules2_realised")
+                        if r2["a_waited_for_b"]:
+                            ctx.count("schedules2_A_waited_for_B")
+                        okA = C.same_outcome(r2["A"], ref_for(refs, ca))
+                        okB = C.same_outcome(r2["B"], ref_for(refs, cb))
+                        if not (okA and okB):
+                            ctx.violation({"pair": [na, nb], "k": ka, "kb": kb, "preempted_at": list(r2["loc"]),
+                                           "B_preempted_at": list(r2["b_loc"]), "A": ca, "B": cb},
+                                          {"A": r2["A"], "B": r2["B"]}, {"A": ref_for(refs, ca), "B": ref_for(refs, cb)},
+                                          "concurrent-divergence",
+                                          {"pair": "%s|%s" % (na, nb), "who": "A" if okB else ("B" if okA else "both"),
+                                           "file": r2["loc"][0], "exc": None, "two_preemptions": True})
+                        else:
+                            ctx.nontrivial(na, nb, ka, kb)
             ctx.count("lines_in_A:%s" % na, L)
             seen_locs = set()
             for k in ks:
